@@ -125,6 +125,9 @@ def fail_key(sc, clause, name):
             key["error"] = name[:80]
     else:
         key["name"] = name
+        # coarse label of the name's form, for registering a whole family as one known finding
+        # (labelling only; the verdict is TLC's)
+        key["form"] = "tag:par" if ":" in name else ("up_theta" if name == "up_theta" else "plain")
     return key
 
 
@@ -186,11 +189,17 @@ def report_rejects(chk, rejects):
 
 
 # ------------------------------------------------------------------ self test of the trace module
-def corruption_selftest(chk, events, rejects, data_path):
-    """Corrupt one recorded field of accepted events: ConvertTrace must reject each."""
+OPAQUE_MODELS = {"teubner_strey", "core_shell_ellipsoid:1", "hollow_cylinder", "rpa", "spherical_sld"}
+
+
+def corruption_selftest(chk, events, rejects, data_path, by_tid):
+    """Corrupt one recorded field of accepted events: ConvertTrace must reject each.
+
+    Events of the models whose hand conversion is opaque are not used (some of their values
+    are unconstrained by design, so a corrupted value may legitimately be accepted)."""
     bad_tids = set(sc["tid"] for sc, _, _, _ in rejects if sc)
     good = [e for e in events if e["tid"] not in bad_tids and not e["res"]["raised"]
-            and e["res"]["name"] != e["name"]]
+            and e["res"]["name"] != e["name"] and by_tid[e["tid"]]["model"] not in OPAQUE_MODELS]
     if not good:
         chk.notes["corruption_selftest"] = "skipped: no accepted converted event on this tree"
         return
@@ -326,7 +335,7 @@ def run(chk, args):
         scen = make_scenarios(export, chk.tier, chk.seed)
         events, rejects = run_and_validate(chk, scen, data_path, "scenarios")
         report_rejects(chk, rejects)
-        corruption_selftest(chk, events, rejects, data_path)
+        corruption_selftest(chk, events, rejects, data_path, {sc["tid"]: sc for sc in scen})
         shown = set()
         for sc in scen:
             kinds = sorted(set(it_dot(k) for k in sc["pars"]))
